@@ -27,7 +27,8 @@ FORMS = {
     'not-bool': 'assert {ok = "yes", desc = "%s"};',            # malformed: ok is not a boolean
     'no-desc': 'assert {ok = %s > 0};',                         # malformed: no desc
     'not-tuple': 'assert %s > 0;',                              # malformed: not a tuple
-    'build-error': 'let x%s = nosuchname;',                     # build error before/after assertions
+    'build-error': 'let x%s = nosuchname;',                     # build error found statically (before any assertion runs)
+    'runtime-error': 'let z%s = fail "stop";',                  # build error at run time (assertions before it have run)
 }
 
 
@@ -45,7 +46,7 @@ def file_text(fi, forms):
             lines.append(FORMS[form] % ph)
         elif form == 'not-tuple':
             lines.append(FORMS[form] % ph)
-        elif form == 'build-error':
+        elif form in ('build-error', 'runtime-error'):
             lines.append(FORMS[form] % ai)
     return '\n'.join(lines) + '\n'
 
@@ -53,14 +54,14 @@ def file_text(fi, forms):
 def cases(tier):
     cs = []
     single = [['sym'], ['sym', 'sym'], [], ['not-bool'], ['no-desc'], ['not-tuple'], ['build-error'], ['sym', 'build-error'], ['build-error', 'sym'],
-              ['sym', 'not-bool', 'sym']]
+              ['sym', 'not-bool', 'sym'], ['runtime-error'], ['sym', 'runtime-error'], ['runtime-error', 'sym'], ['sym', 'runtime-error', 'sym']]
     for f in single:
         cs.append({'files': [f]})
-    pairs = [['sym'], ['sym', 'sym'], ['not-bool'], ['build-error'], []]
+    pairs = [['sym'], ['sym', 'sym'], ['not-bool'], ['build-error'], [], ['sym', 'runtime-error'], ['runtime-error']]
     for a in pairs:
         for b_ in pairs:
             cs.append({'files': [a, b_]})
-    trip = [['sym'], ['build-error'], ['not-tuple']] if tier == 'quick' else [['sym'], ['sym', 'sym'], ['build-error'], ['not-tuple'], []]
+    trip = [['sym'], ['sym', 'runtime-error'], ['not-tuple']] if tier == 'quick' else [['sym'], ['sym', 'sym'], ['build-error'], ['sym', 'runtime-error'], ['not-tuple'], []]
     for a in trip:
         for b_ in trip:
             for c in trip:
@@ -103,7 +104,7 @@ def harness(ctx, case):
         own = []
         malformed = False
         for ai, form in enumerate(forms):
-            if form == 'build-error' or malformed:
+            if form in ('build-error', 'runtime-error') or malformed:
                 builds = False
                 break
             if form == 'sym':
@@ -116,7 +117,7 @@ def harness(ctx, case):
                 else:
                     # not evaluated on this path (the file stopped building before it): allowed only if it does not build
                     own.append(('f%da%d' % (fi, ai), None))
-                    if not any(f in ('build-error', 'not-bool', 'no-desc', 'not-tuple') for f in forms):
+                    if not any(f in ('build-error', 'runtime-error', 'not-bool', 'no-desc', 'not-tuple') for f in forms):
                         raise interp.Unsupported('assertion outcome not determined on this path')
                     builds = False
             else:
